@@ -304,6 +304,72 @@ def r13_9(ctx, rep):
     run_as(r08_2, "R13.9", ctx, rep)
 
 
+@SPEC.rule(
+    "R13.10",
+    "attribute values are coerced with the variable's own type only: in Generator._ast_symbols_to_variables every re-binding of the attribute "
+    "value between its evaluation and setattr(variable, <attribute>, <value>) is a call of the local bound from get_python_type() — a fixed "
+    "float()/int()/bool() turns `Integer n(max = 2*5)` into a variable whose max is 10.0",
+)
+def r13_10(ctx, rep):
+    R = "R13.10"
+    fn = ctx.func(GEN, "Generator._ast_symbols_to_variables", R)
+    site = GEN + ":Generator._ast_symbols_to_variables"
+    ptype = {st.targets[0].id for st in walk_local(fn) if isinstance(st, ast.Assign) and isinstance(st.targets[0], ast.Name) and isinstance(st.value, ast.Call)
+             and (call_name(st.value) or "").endswith("get_python_type")}
+    if not ptype:
+        raise MechanismMissing(R, "no local bound from get_python_type() in _ast_symbols_to_variables")
+    n = 0
+    for c in calls(fn):
+        if is_name(c.func, "setattr") and len(c.args) == 3 and isinstance(c.args[2], ast.Name):
+            v = c.args[2].id
+            loop = getattr(c, "_parent", None)
+            while loop is not None and not isinstance(loop, ast.For):
+                loop = getattr(loop, "_parent", None)
+            if loop is None:
+                continue
+            for st in ast.walk(loop):
+                if isinstance(st, ast.Assign) and any(is_name(t, v) for t in st.targets):
+                    val = st.value
+                    if isinstance(val, ast.Call) and (call_name(val) or "").endswith("get_mx"):
+                        continue  # the evaluation itself
+                    n += 1
+                    ok = isinstance(val, ast.Call) and isinstance(val.func, ast.Name) and val.func.id in ptype
+                    rep.ob(R, site, "coercion `%s` uses the variable's python type" % norm(st)[:50], ok,
+                           "`%s` converts the attribute with a fixed type: Integer and Boolean variables get float attributes (or the reverse), and the metadata "
+                           "no longer has the declared type" % norm(st)[:60])
+    if n < 2:
+        raise MechanismMissing(R, "fewer than 2 coercions of attribute values found")
+
+
+@SPEC.rule(
+    "R13.11",
+    "the affine shortcut is decided on all categories: the test that guards the affinity analysis in variable_metadata_function (the one that can "
+    "clear the is-affine flag) reads nothing that the category loop binds per category other than the category's own expression — a per-category "
+    "`skip the analysis` switch leaves the flag set for a list whose attributes are not affine in the parameters, and the rebuilt function then "
+    "reports A(0)*p + b(0) for them",
+)
+def r13_11(ctx, rep):
+    R = "R13.11"
+    fn = _metadata_fn(ctx, R)
+    site = MODEL + ":Model.variable_metadata_function"
+    loops = [lp for lp in fn.body if isinstance(lp, ast.For) and any(isinstance(x, ast.Assign) and is_name(x.targets[0], "is_affine") for x in ast.walk(lp))]
+    if not loops:
+        raise MechanismMissing(R, "category loop that clears the is-affine flag not found")
+    lp = loops[0]
+    per_cat = {x.id for x in ast.walk(lp.target) if isinstance(x, ast.Name)}
+    # what the loop iterates over to collect the attribute values (the category's variable list) is the one legitimate per-category name
+    iterated = {norm(x.iter) for x in ast.walk(lp) if isinstance(x, ast.For) and x is not lp}
+    extra = sorted(per_cat - {n for n in per_cat if n in iterated})
+    bad = []
+    for t in ast.walk(lp):
+        if isinstance(t, ast.If) and any(isinstance(x, ast.Assign) and is_name(x.targets[0], "is_affine") for x in ast.walk(t)):
+            used = {x.id for x in ast.walk(t.test) if isinstance(x, ast.Name)}
+            if used & set(extra):
+                bad.append("`%s` reads %s" % (norm(t.test)[:70], sorted(used & set(extra))))
+    rep.ob(R, site, "the affinity analysis is not switched per category", not bad,
+           "; ".join(bad[:2]) + " — for the categories switched off the flag stays True whatever their attribute expressions look like")
+
+
 # -- seeded variants ---------------------------------------------------------
 @SPEC.rule(
     "R13.7",
@@ -460,6 +526,36 @@ def _m_skip_rows(mod):
             if isinstance(lp, ast.For) and norm(lp.iter) == "variable_list":
                 lp.body.insert(0, ast.parse("if not any(isinstance(getattr(variable, a), ca.MX) for a in CASADI_ATTRIBUTES):\n    continue").body[0])
                 return True
+        return False
+
+    return mod if replace_in_func(mod, "Model.variable_metadata_function", edit) else None
+
+
+@SPEC.mutant("scalar DM attribute unpacked with float()", GEN, "R13.10", "uses the variable's python type")
+def _m_float_coerce(mod):
+    def edit(fn):
+        for st in ast.walk(fn):
+            if isinstance(st, ast.If) and "isinstance(v, ca.DM)" in norm(st.test):
+                for b in st.body:
+                    if isinstance(b, ast.Assign) and norm(b.value) == "python_type(v)":
+                        b.value = ast.parse("float(v)", mode="eval").body
+                        return True
+        return False
+
+    return mod if replace_in_func(mod, "Generator._ast_symbols_to_variables", edit) else None
+
+
+@SPEC.mutant("affinity analysis skipped for parameters and constants", MODEL, "R13.11", "not switched per category")
+def _m_skip_affinity(mod):
+    def edit(fn):
+        for lp in fn.body:
+            if isinstance(lp, ast.For) and isinstance(lp.iter, ast.List) and len(lp.iter.elts) == 5:
+                lp.target = ast.Tuple(elts=[lp.target, ast.Name(id="_analyse", ctx=ast.Store())], ctx=ast.Store())
+                lp.iter.elts = [ast.Tuple(elts=[e, ast.Constant(value=(i < 3))], ctx=ast.Load()) for i, e in enumerate(lp.iter.elts)]
+                for t in ast.walk(lp):
+                    if isinstance(t, ast.If) and "len(self.parameters) > 0" in norm(t.test) and "isinstance(expr" in norm(t.test):
+                        t.test = ast.BoolOp(op=ast.And(), values=[ast.Name(id="_analyse", ctx=ast.Load()), t.test])
+                        return True
         return False
 
     return mod if replace_in_func(mod, "Model.variable_metadata_function", edit) else None
